@@ -256,24 +256,24 @@ theorem le_secOf_or_nsOf (v k : Nat) (b : Bool) (hk : 0 < k) :
 
 /-! ### lists of items -/
 
-structure Item where
+structure DurItem where
   v : Nat
   nm : Str
   k : Nat
   b : Bool
 
-def Item.Valid (it : Item) : Prop := ValidName it.nm it.k it.b
+def DurItem.Valid (it : DurItem) : Prop := ValidName it.nm it.k it.b
 
-def secSum : List Item → Nat
+def secSum : List DurItem → Nat
   | [] => 0
   | it :: its => secOf it.v it.k it.b + secSum its
 
-def nsSum : List Item → Nat
+def nsSum : List DurItem → Nat
   | [] => 0
   | it :: its => nsOf it.v it.k it.b + nsSum its
 
 /-- humantime prints an item only if its value is non-zero -/
-def renderItems : List Item → List Str
+def renderItems : List DurItem → List Str
   | [] => []
   | it :: its => (if it.v = 0 then [] else [natToStr it.v ++ it.nm]) ++ renderItems its
 
@@ -284,7 +284,7 @@ theorem nsOf_zero (k : Nat) (b : Bool) : nsOf 0 k b = 0 := by
   cases b <;> simp [nsOf]
 
 /-- with a unit pending, the remaining items are all added and the total is returned -/
-theorem durLoop_pending : ∀ (its : List Item), (∀ it ∈ its, it.Valid) →
+theorem durLoop_pending : ∀ (its : List DurItem), (∀ it ∈ its, it.Valid) →
     ∀ (n : Nat) (u : Str) (k : Nat) (b : Bool) (cur : Nat × Nat),
     unitScale u = some (k, b) →
     cur.1 + secOf n k b + secSum its < 2 ^ 64 →
@@ -314,7 +314,7 @@ theorem durLoop_pending : ∀ (its : List Item), (∀ it ∈ its, it.Valid) →
       simp only [Nat.add_assoc]
 
 /-- from the initial state, provided at least one item is printed -/
-theorem durLoop_items : ∀ (its : List Item), (∀ it ∈ its, it.Valid) →
+theorem durLoop_items : ∀ (its : List DurItem), (∀ it ∈ its, it.Valid) →
     (∃ it ∈ its, it.v ≠ 0) →
     secSum its < 2 ^ 64 → nsSum its ≤ 1000000000 →
     durLoop .first (0, 0) (renderItems its).flatten = durationNew (secSum its) (nsSum its) := by
@@ -342,7 +342,7 @@ theorem durLoop_items : ∀ (its : List Item), (∀ it ∈ its, it.Valid) →
         (by simp only [Nat.zero_add]; omega) (by simp only [Nat.zero_add]; omega)]
       simp only [Nat.zero_add]
 
-theorem renderItems_noWs : ∀ (its : List Item), (∀ it ∈ its, it.Valid) →
+theorem renderItems_noWs : ∀ (its : List DurItem), (∀ it ∈ its, it.Valid) →
     ∀ c ∈ (renderItems its).flatten, isWs c = false := by
   intro its
   induction its with
@@ -363,7 +363,7 @@ theorem renderItems_noWs : ∀ (its : List Item), (∀ it ∈ its, it.Valid) →
           exact (letterOk_iff this).2.1
     · exact ih hv' c hc
 
-theorem renderItems_ne_nil : ∀ (its : List Item), (∃ it ∈ its, it.v ≠ 0) →
+theorem renderItems_ne_nil : ∀ (its : List DurItem), (∃ it ∈ its, it.v ≠ 0) →
     (renderItems its).flatten ≠ [] := by
   intro its
   induction its with
@@ -389,7 +389,7 @@ theorem renderItems_ne_nil : ∀ (its : List Item), (∃ it ∈ its, it.v ≠ 0)
 /-- plural suffix as written by humantime's `item_plural` -/
 def pl (nm : Str) (v : Nat) : Str := nm ++ (if v > 1 then ['s'] else [])
 
-def allItems (d : Dur) : List Item :=
+def allItems (d : Dur) : List DurItem :=
   [ ⟨d.secs / 31557600, pl (kw "year") (d.secs / 31557600), 31557600, true⟩,
     ⟨d.secs % 31557600 / 2630016, pl (kw "month") (d.secs % 31557600 / 2630016), 2630016, true⟩,
     ⟨d.secs % 31557600 % 2630016 / 86400, pl (kw "day") (d.secs % 31557600 % 2630016 / 86400),
